@@ -323,7 +323,94 @@ class C06:
                        "length 5 (quick) / 7 (thorough) after the code")
 
 
-LEAF = {"C15": C15, "C16": C16, "C06": C06}
+# ------------------------------------------------------------------------------------------- C05
+def partitions(n):
+    """all compositions of n (ordered partitions) as lists of block sizes"""
+    if n == 0:
+        yield []
+        return
+    for first in range(1, n + 1):
+        for rest in partitions(n - first):
+            yield [first] + rest
+
+
+class C05:
+    module = "Properties_C05"
+
+    @staticmethod
+    def corpus():
+        c = []
+        for t, parts in [("\r\r\r", "1,2"), ("a\r\rb", "2,2"), ("a\r\r\nb", "2,3"), ("\r", "1"), ("a\r", "2"), ("\r\n", "1,1"),
+                         ("\r\n", "2"), ("a\r\nb\rc\nd", "9"), ("a\r\nb\rc\nd", "1,1,1,1,1,1,1,1,1"), ("", "-")]:
+            c.append("adown %s %s" % (parts, S(t)))
+        for t in ["a\rb", "a\nb", "a\r\nb", "\r\r\n", "\n\r", "\r\n\r\n", "x" * 20 + "\r", "\r", "\n", ""]:
+            for isz in (1, 2, 8192):
+                for sizes in ("1", "2", "3", "8192", "1,2"):
+                    c.append("aup %d %s - %s" % (isz, sizes, S(t)))
+        return c
+
+    @staticmethod
+    def generate(rng, tier, dist):
+        thorough = tier == "thorough"
+        cases = []
+        maxlen = 8 if thorough else 6
+        strings = []
+        for n in range(0, maxlen + 1):
+            for t in itertools.product("\r\nx", repeat=n):
+                strings.append("".join(t))
+        for t in strings:
+            h = S(t)
+            for isz in (1, 2, 3, 8192):
+                for sizes in ("1", "2", "3", "5", "1,2,3"):
+                    for sched in ("-", "1", "2,1"):
+                        cases.append("aup %d %s %s %s" % (isz, sizes, sched, h))
+        dist.add("aup:all-strings-over-CR-LF-x-upto-%d x isize{1,2,3,8192} x caller{1,2,3,5,[1,2,3]} x sched{full,1,[2,1]}" % maxlen,
+                 len(strings) * 60)
+        pmax = 7 if thorough else 6
+        for t in strings:
+            if len(t) > pmax:
+                continue
+            for part in partitions(len(t)):
+                cases.append("adown %s %s" % (",".join(map(str, part)) or "-", S(t)))
+                dist.add("adown:all-partitions")
+        for t in strings:
+            if len(t) > pmax:
+                for part in ("1", "2", "3", "1,2", "2,1", "3,1,2", str(len(t))):
+                    k = [int(x) for x in part.split(",")]
+                    full = []
+                    while sum(full) < len(t):
+                        full.append(k[len(full) % len(k)])
+                    cases.append("adown %s %s" % (",".join(map(str, full)), S(t)))
+                    dist.add("adown:cyclic-partitions-long")
+        # random long strings (block boundaries at 8192 matter for the real buffers)
+        for _ in range(300 if thorough else 60):
+            n = rng.choice([100, 1000, 8190, 8191, 8192, 8193, 16384, 20000])
+            t = "".join(rng.choice(["\r", "\n", "\r\n", "a", "bc", "\x00", "\xff"]) for _ in range(n))[:n + 1]
+            isz = rng.choice([1, 7, 512, 8191, 8192])
+            sizes = rng.choice(["8192", "8192", "1", "100,8192", "4096", "8191"])
+            sched = rng.choice(["-", "1", "100", "8191,1", "3,5,7"])
+            if isz == 1 or sizes == "1" or sched == "1":
+                t = t[:3000]
+            cases.append("aup %d %s %s %s" % (isz, sizes, sched, H(t.encode("latin-1"))))
+            parts = []
+            while sum(parts) < len(t):
+                parts.append(rng.choice([1, 2, 100, 1460, 8192]))
+            cases.append("adown %s %s" % (",".join(map(str, parts)), H(t.encode("latin-1"))))
+            dist.add("aup/adown:random-long")
+        return cases
+
+    @staticmethod
+    def nontrivial(case, model):
+        # the conversion changed something or had to carry state over a boundary
+        f = case.split()
+        return f[-1] != "-" and (("0d" in f[-1]) or ("0a" in f[-1]))
+
+    exhaustive_note = ("upload: all strings over {CR,LF,x} up to length 6 (quick) / 8 (thorough) x internal sizes {1,2,3,8192} x "
+                       "caller sizes {1,2,3,5,[1,2,3]} x source schedules {full,1-byte,[2,1]}; download: all strings up to "
+                       "length 6/7 x ALL partitions into write calls")
+
+
+LEAF = {"C15": C15, "C16": C16, "C06": C06, "C05": C05}
 
 
 def evaluate(prop, cases, tag):
@@ -351,7 +438,8 @@ def decide(prop, rep, cases, impl, model, spec, P):
             continue
         if P.nontrivial(c, m):
             nontriv.add(c)
-        if i != s:
+        i_cmp = i.split(" | ")[0] if (" | " in i and " | " not in s) else i
+        if i_cmp != s:
             rep.violation(classify(c.split()[0], i, s),
                           "implementation disagrees with the specification of the theorem",
                           dict(kind="leaf", case=c, implementation=i, specification=s, model=m))
